@@ -113,7 +113,8 @@ def run(ctx, rep):
     sh = O.SHADE(lambda x: x.sum(axis=1), iters=2, pop_size=4, left_border=-1.0, right_border=1.0, num_variables=1)
     sg = O.SHAGA(lambda x: x.sum(axis=1), iters=2, pop_size=4, str_len=8)
     vals_cr, vals_f, dfs = [0.0, 0.25, 1.0], [0.125, 0.5, 1.0], [0.5, 1.0, 3.0]
-    for n in (0, 1, 2):
+    # improvements of ordinary size and improvements in tiny units (a total below 1e-8 is still a strictly positive total)
+    for n, dfs in [(n_, d_) for n_ in (0, 1, 2) for d_ in (dfs, [2.0 ** -34, 2.0 ** -33, 3 * 2.0 ** -34])]:
         for S in itertools.product(vals_cr, repeat=n):
             for df in itertools.product(dfs, repeat=n):
                 for code, fn, Sv in ((1, lambda u, S_, d: sh._update_u_CR(u, S_, d), S),
@@ -128,13 +129,31 @@ def run(ctx, rep):
                         rep.problem("memory", "the value written to a success-history cell is NaN / outside its range for reachable successful parameters",
                                     case, "shaga:nan-memory" if code == 2 and math.isnan(out) else "update-range", True, out, None, "C15_memory_invariant")
                         continue
+                    # the documented rule, recomputed: no success -> the previous cell; otherwise the (improvement-weighted) mean
+                    import fractions as _fr
+                    Sq, dq = [_fr.Fraction(x) for x in Sv], [_fr.Fraction(x) for x in df]
+                    if not Sq or (code in (1, 2) and sum(dq) <= 0):
+                        exp = _fr.Fraction(u)
+                    else:
+                        w = [_fr.Fraction(1)] * len(Sq) if code == 0 else [x / sum(dq) for x in dq]
+                        if code == 1:
+                            exp = sum(a * b for a, b in zip(w, Sq))
+                        else:
+                            den = sum(a * b for a, b in zip(w, Sq))
+                            exp = _fr.Fraction(0) if den == 0 else sum(a * b * b for a, b in zip(w, Sq)) / den
+                    if abs(_fr.Fraction(out) - exp) > _fr.Fraction(1, 10 ** 9):
+                        rep.problem("memory", "the value written to a success-history cell is not the documented mean of the successful parameters "
+                                    "(improvement-weighted; the previous cell only when nothing improved)", case, "update-rule", True, out, float(exp),
+                                    "C15_memory_invariant")
+                        continue
                     f_up.add(f"({C.cnat(code)}, {C.cq(u)}, {ql(Sv)}, {ql(df)}, {C.cq(out)})", case)
     kinds = ["SHADE", "SHAGA", "jDE"] * ctx.pick(5, 40)
     for run_i, kind in enumerate(kinds):
         seed = ctx.rng.randrange(1 << 30)
         pop = ctx.rng.randint(4, 12)
         iters = ctx.rng.randint(pop + 1, pop + 4) if ctx.rng.random() < 0.4 else ctx.rng.randint(3, 7)   # wrap-around
-        obj = L.Objective(["onemax", "weighted", "minx", "plateau", "const"][(run_i // 3) % 5])   # every (kind, direction, objective) combination over 10 triples
+        obj = L.Objective(["onemax", "weighted", "minx", "plateau", "const"][(run_i // 3) % 5],   # every (kind, direction, objective) combination over 10 triples
+                          scale=(2.0 ** -30 if (run_i // 3) % 3 == 2 else 1.0))                     # every third triple in tiny units (improvements ~1e-9)
         rec = []
         mini = (run_i // 3) % 2 == 1          # every kind is run in both optimisation directions, alternating
         cfg = dict(kind=kind, seed=seed, pop=pop, iters=iters, objective=obj.kind, minimization=mini)
